@@ -14,9 +14,14 @@
         longer); before the repair the faithful model refuted it with that witness.
    json_number_value / json_number_has_int_part: num_text l is in the number grammar, denotes the same rational as l and
    has an integer part (C08's number_exact composed with the zero repair).
-   Not proved here: that the parser of the parse/v2 dependency delivers events_of v for every text of v
-   (the harness checks this on every generated document: correspondence "json_tree"). *)
-From MV Require Import Base.MvBytes Num.NumModel Num.NumSpec Json.JsonModel Json.JsonSpec Json.JsonProofs Json.JsonNumber Json.JsonLength.
+   THE PARSER: Json/JsonParse.v models Parser.Next of the parse/v2 dependency (white space, commas and the needComma flag,
+   the state stack, string / number / literal scanning with Go's exact behaviour on malformed input) over the remaining
+   input; tied to the real parser on every generated, mutated and corpus text of a run (events AND verdict).
+     parser_delivers_the_events_of_the_value: for EVERY value of any depth whose lexemes the scanners accept completely,
+        and EVERY white-space layout (different white space at every gap), parsing the rendered text gives exactly
+        events_of SValue v and succeeds — which closes the chain text -> events -> minified bytes by proof
+        (json_text_to_compact: minifying any text of v gives compact (num_text) v). *)
+From MV Require Import Base.MvBytes Num.NumModel Num.NumSpec Json.JsonModel Json.JsonSpec Json.JsonProofs Json.JsonNumber Json.JsonLength Json.JsonParse Json.JsonParseSpec Json.JsonParseProofs.
 
 Theorem json_structure_preserved : forall keepnumbers v, wf_jvalue v ->
   json_minify_events keepnumbers (events_of SValue v) = compact (num_text keepnumbers) v.
@@ -59,3 +64,22 @@ Example json_structure_nonvacuous :
   wf_jvalue v /\ json_minify_events false (events_of SValue v) =
     [123;34;97;34;58;91;49;44;116;114;117;101;93;44;34;97;34;58;34;34;125] (* {"a":[1,true],"a":""} *).
 Proof. split; [simpl; tauto | vm_compute; reflexivity]. Qed.
+
+(* ---------- the parser ---------- *)
+Theorem parser_delivers_the_events_of_the_value : forall ws v,
+  (forall k, all_jws (ws k)) -> lex_ok v ->
+  parse_events (render ws v) = (events_of SValue v, true).
+Proof. exact parse_render. Qed.
+Print Assumptions parser_delivers_the_events_of_the_value.
+
+(* text -> bytes: minifying ANY text of v (any white space) gives the compact rendering of v *)
+Theorem json_text_to_compact : forall keepnumbers ws v,
+  (forall k, all_jws (ws k)) -> lex_ok v -> wf_jvalue v ->
+  json_minify_events keepnumbers (fst (parse_events (render ws v))) = compact (num_text keepnumbers) v.
+Proof. intros k ws v Hws Hlex Hwf. rewrite (parse_render ws v Hws Hlex). cbn [fst]. apply json_minify_compact. exact Hwf. Qed.
+Print Assumptions json_text_to_compact.
+
+(* the parser never indexes an empty state stack, and every token consumes input (no fuel bound is hidden in parse_events) *)
+Theorem parser_consumes_input : forall st i g t st' r, pnext st i = PTok g t st' r -> (length r < length i)%nat.
+Proof. exact pnext_shorter. Qed.
+Print Assumptions parser_consumes_input.
